@@ -19,6 +19,18 @@ type c10Cfg struct {
 	OOOMs   int64 `json:"ooo_ms"`
 	Keys    int   `json:"keys"`
 	MaxL    int   `json:"max_len"`
+	Block   bool  `json:"block_slow_consumer,omitempty"` // strategy block without timeout, window output buffer of 1, sink taking 20 ms per batch
+}
+
+func c10Opts(c c10Cfg, eager bool) detOpts {
+	o := detOpts{Eager: eager, Horizon: 500 * vtime.Millisecond}
+	if c.Block {
+		p := smallPerf("block", 64, 64, 1)
+		o.Perf = &p
+		o.SinkDelay = 20 * vtime.Millisecond
+		o.Horizon = 2 * vtime.Second
+	}
+	return o
 }
 
 var c10Times = []int64{10000, 10500, 12000, 12001, 12500, 15000, 16000, 20000}
@@ -31,9 +43,10 @@ func c10Configs(tier string) []c10Cfg {
 	var out []c10Cfg
 	for _, to := range []int64{2000, 3000} {
 		for _, ooo := range []int64{0, 3000} {
-			out = append(out, c10Cfg{to, ooo, 1, maxL}, c10Cfg{to, ooo, 2, maxL - 1})
+			out = append(out, c10Cfg{Timeout: to, OOOMs: ooo, Keys: 1, MaxL: maxL}, c10Cfg{Timeout: to, OOOMs: ooo, Keys: 2, MaxL: maxL - 1})
 		}
 	}
+	out = append(out, c10Cfg{Timeout: 2000, OOOMs: 0, Keys: 2, MaxL: maxL - 1, Block: true})
 	return out
 }
 
@@ -230,6 +243,7 @@ func (c10) Plan(tier string) []fw.Unit {
 			us = append(us, fw.Unit{Check: "C10", Kind: "enum", Tier: tier, Spec: fw.Spec(enumSpec{Cfg: i, Shard: s, Shards: shards})})
 		}
 	}
+	us = append(us, fw.Unit{Check: "C10", Kind: "key-pairs", Tier: tier, Spec: fw.Spec(enumSpec{})})
 	return us
 }
 
@@ -256,6 +270,9 @@ func c10Shape(c c10Cfg, evs []ref.Event) string {
 }
 
 func (c10) Run(u fw.Unit) fw.Result {
+	if u.Kind == "key-pairs" {
+		return c10KeyPairs()
+	}
 	sp := parseEnum(u)
 	c := c10Configs(u.Tier)[sp.Cfg]
 	a := newAcc("C10", "det-session")
@@ -280,7 +297,7 @@ func (c10) Run(u fw.Unit) fw.Result {
 				}
 				var canon [2]string
 				for pi, eager := range []bool{false, true} {
-					r := detExec(sql, detOpts{Eager: eager, Horizon: 500 * vtime.Millisecond}, feed)
+					r := detExec(sql, c10Opts(c, eager), feed)
 					a.r.Evaluations++
 					a.r.Transitions += int64(r.Steps)
 					cs := map[string]any{"cfg": c, "sql": sql, "events": evs, "eager_feed": eager}
